@@ -307,3 +307,11 @@ pub fn c11_extend_u16_onto_empty() {
     }
     core::mem::forget(e0);
 }
+
+// a value with no items converts to an empty list — for every binary integer variant
+to_multi_int_contract!(c11_multi_int_u8_i32_n0, U8, u8, i32, [], 0);
+to_multi_int_contract!(c11_multi_int_i16_i32_n0, I16, i16, i32, [], 0);
+to_multi_int_contract!(c11_multi_int_u32_i32_n0, U32, u32, i32, [], 0);
+to_multi_int_contract!(c11_multi_int_i32_i32_n0, I32, i32, i32, [], 0);
+to_multi_int_contract!(c11_multi_int_u64_u64_n0, U64, u64, u64, [], 0);
+to_multi_int_contract!(c11_multi_int_i64_i64_n0, I64, i64, i64, [], 0);
